@@ -68,6 +68,16 @@ CLAIMED = {
              "Spec/T10Opcodes.v and Spec/SAM.v (my transcription of T10's assignments); 8-line hand model of the range-table "
              "semantics tied by exhaustive correspondence over 0..255.",
         technique="Coq proof by reflection (vm_compute over regenerated tables vs. T10 spec) + exhaustive correspondence"),
+    "C18": dict(
+        text="Machine-checked refinement proof (Coq): for all initial mappings and ALL sequences of add/remove/lookup/reverse-lookup/keys "
+             "operations the Enum metaclass answers exactly like an ordinary insertion-ordered dictionary (simulation by induction over the "
+             "operation list), under a decidable condition on the `keys` filter REGENERATED from enum.py (it lists a name iff it is not a "
+             "dunder name, for every kind of value). The operations are a hand model tied by a correspondence run over 3 live enumerations "
+             "with ints, strings, dicts, OpCode objects, functions, classes and bound methods; the implementation is also compared with a real dict.",
+        ref="DESIGN.md §4 C18",
+        note="Trusted: Coq kernel; translator for the filter expression; hand model of __new__/add/remove/__getitem__ (correspondence); "
+             "names beginning with '__' and the metaclass's own attribute names are outside the quantifier (names_ok, stated).",
+        technique="Coq simulation proof (induction over histories) over a partly regenerated model + vm_compute correspondence"),
 }
 
 NOT_YET = "not yet built in this round (machinery under construction); see DESIGN.md §4 for the planned Coq model and theorems"
